@@ -11,7 +11,15 @@ theorem kindOfCode_kindCode (k : NativeKind) : kindOfCode (kindCode k) = k := by
 
 theorem shapeV_viewS (i : Instr) : shapeV (viewS i) = shape i := by
   cases i with
-  | callNative k n => simp only [viewS, shapeV, shape, kindOfCode_kindCode]
+  | callNative k n =>
+    have h1 : ("calln" == "index") = false := by decide
+    have h2 : ("calln" == "indexarray") = false := by decide
+    simp [viewS, shapeV, shape, kindOfCode_kindCode, h1, h2]
+  | index k =>
+    cases h : nonNull k <;> simp [viewS, shapeV, shape, h] <;> decide
+  | indexarray k =>
+    have h1 : ("indexarray" == "index") = false := by decide
+    cases h : nonNull k <;> simp [viewS, shapeV, shape, h, h1] <;> decide
   | _ => rfl
 
 theorem map_shapeV_viewS (c : Array Instr) : (c.map viewS).map shapeV = c.map shape := by
